@@ -126,7 +126,7 @@ pub fn pe_end(uid: Uid, action: Option<Ret>, err: bool) {
         s.effective = eff;
         s.reg_window.clear();
         let was = s.st;
-        if was == St::Enabled || was == St::Limbo {
+        if was == St::Enabled || was == St::Limbo || (was == St::Disabled && eff == Ret::Remove) {
             match eff {
                 Ret::Disable => {
                     s.st = St::Disabled;
@@ -567,7 +567,11 @@ pub fn on_callback(uid: Uid, ev: Ev) -> CbRet {
         if !in_dispatch {
             w.alarm("C01.outside_dispatch", "callback-outside-dispatch", format!("callback of #{} ran outside a dispatch", uid));
         }
-        let allowed = st == St::Enabled || st == St::Limbo || lat;
+        // a user-written source that does not filter events itself is handed the events that were collected before
+        // another callback of this dispatch disabled it: calloop leaves that filtering to the source (every built-in
+        // source does it), so it is not held against the loop
+        let raw_stale = matches!(w.srcs[uid].spec.kind, Kind::Raw) && st == St::Disabled && w.touched_now(uid);
+        let allowed = st == St::Enabled || st == St::Limbo || lat || raw_stale;
         if !allowed {
             let detail = format!("callback of source #{} ({}) invoked for {} while the source is {}", uid, w.srcs[uid].spec.kind.name(), ev.short(), st_name(st));
             let stale = w.srcs[uid].removed_dispatch == d || w.touched_now(uid);
